@@ -1,6 +1,6 @@
-(* C03 / kernel K43: vocabulary and semantics of the code that unpack.py unpack_named_tuple emits for a
+(* C03 / kernel K45: vocabulary and semantics of the code that unpack.py unpack_named_tuple emits for a
    NamedTuple class, in both forms (as_list / as_dict), with and without defaults.  The emission is translated
-   from /repo on every run (coq/gen/K43.v, tools/kernels/k43_namedtuple_emit.py); K43Proofs.v proves that the
+   from /repo on every run (coq/gen/K45.v, tools/kernels/k45_namedtuple_emit.py); K45Proofs.v proves that the
    emitted code computes TyModel.nt_items (as_list, incl. the rule of fix 8ccb0df) resp. TyNtDict.nd_fields
    (as_dict, incl. the rule of fix 28df7ca). *)
 From Coq Require Import List Bool ZArith String Arith.
